@@ -560,7 +560,7 @@ delgoto(void *ptr)
 	struct gotolabel *g = ptr;
 
 	if (!g->defined)
-		error(&tok.loc, "label '%s' is used but not defined", g->label->label.u.name);
+		error(&g->loc, "label '%s' is used but not defined", g->label->label.u.name);
 	free(g);
 }
 
@@ -663,6 +663,7 @@ funcgoto(struct func *f, char *name)
 	if (!g) {
 		g = xmalloc(sizeof(*g));
 		g->label = mkblock(name);
+		g->loc = tok.loc;
 		g->defined = false;
 		*entry = g;
 	}
